@@ -73,6 +73,10 @@ var txOuts = map[string][]outT{
 var txOrder = []string{"T1", "T2", "T3", "T4", "T5", "T6", "T7", "T9"}
 var owner = map[string]string{"F1:0": "K", "F2:0": "K", "X:0": "K"}
 
+// afterNode, when set, runs right after the node exists and before the prefix blocks
+// are processed (the wallet mode registers its checkpoint here).
+var afterNode func(n *stack.Node, keys map[string]*stack.Key)
+
 func newWorld(opt stack.Options) (*world, error) {
 	keys := map[string]*stack.Key{}
 	for i, k := range []string{"K", "A", "B", "o1", "o2", "n1", "n2"} {
@@ -93,6 +97,9 @@ func newWorld(opt stack.Options) (*world, error) {
 	n, err := stack.New(opt)
 	if err != nil {
 		return nil, err
+	}
+	if afterNode != nil {
+		afterNode(n, keys)
 	}
 	w := &world{n: n, keys: keys, ops: map[string]common2.OutPoint{}, vals: map[string]common.Fixed64{},
 		txs: map[string]interfaces.Transaction{}, blocks: map[int]*types.Block{}, idOf: map[common.Uint256]int{}}
@@ -634,6 +641,10 @@ func main() {
 		sn, _ = strconv.Atoi(os.Args[4])
 	}
 	cacheMode := os.Args[1] == "cache"
+	if os.Args[1] == "wallet" {
+		walletMain(behs, si, sn)
+		return
+	}
 	poolMode = os.Args[1] == "mempool" || os.Args[1] == "poolckp"
 	ckpMode = os.Args[1] == "poolckp"
 	opt := stack.Options{PoolGlue: poolMode}
